@@ -1519,7 +1519,7 @@ func monC17(tr *Trace, br map[string]int) (out []Violation) {
 				out = append(out, viol("C17", "import-panics", i, "import of the exported genesis panics: %s", s.Detail))
 				continue
 			}
-			if f[0] != "ok" || len(f) < 2 || f[1] != "same" {
+			if f[0] != "ok" || len(f) < 2 || (f[1] != "same" && f[1] != "restricted-message-admitted-after-restart") {
 				out = append(out, viol("C17", "re-export-differs", i, "second export differs: %s %.400s", s.Res, s.Detail))
 			}
 			a, b := genesisLines(last), genesisLines(s.Dump)
